@@ -1,6 +1,7 @@
 package plenccodec
 
 import (
+	"math"
 	"strconv"
 	"time"
 )
@@ -150,14 +151,29 @@ func (j *JSONOutput) Uint64(v uint64) {
 
 func (j *JSONOutput) Float64(v float64) {
 	j.prefix()
-	j.data = strconv.AppendFloat(j.data, v, 'g', -1, 64)
+	j.data = appendFloat(j.data, v)
 	j.punctuate()
 }
 
 func (j *JSONOutput) Float32(v float32) {
 	j.prefix()
-	j.data = strconv.AppendFloat(j.data, float64(v), 'g', -1, 64)
+	j.data = appendFloat(j.data, float64(v))
 	j.punctuate()
+}
+
+// appendFloat appends v as a JSON number. JSON has no way to write NaN or an
+// infinity as a number, so these are written as the strings the protobuf JSON
+// mapping uses for them
+func appendFloat(data []byte, v float64) []byte {
+	switch {
+	case math.IsNaN(v):
+		return append(data, `"NaN"`...)
+	case math.IsInf(v, 1):
+		return append(data, `"Infinity"`...)
+	case math.IsInf(v, -1):
+		return append(data, `"-Infinity"`...)
+	}
+	return strconv.AppendFloat(data, v, 'g', -1, 64)
 }
 
 func (j *JSONOutput) String(v string) {
